@@ -3359,6 +3359,11 @@ func MarshalSRBSID(bsid *bgp.TunnelEncapSubTLVSRBSID) (*api.SRBindingSID, error)
 		Sid: make([]byte, len(bsid.BSID.Value)),
 	}
 	copy(s.Sid, bsid.BSID.Value)
+	if len(s.Sid) == 4 {
+		// the API (like NewBSID, which UnmarshalSRBSID calls) carries the label
+		// value; on the wire it sits in the upper 20 bits
+		binary.BigEndian.PutUint32(s.Sid, binary.BigEndian.Uint32(s.Sid)>>12)
+	}
 	s.SFlag = bsid.Flags&0x80 == 0x80
 	s.IFlag = bsid.Flags&0x40 == 0x40
 	return s, nil
